@@ -1,6 +1,6 @@
 """Sidecar contracts for /repo/bisturi (never edits the repository)."""
 
-ALL_MODULES = ['c_fragments', 'c_structural', 'c_field', 'c_packet', 'c_descriptor']
+ALL_MODULES = ['c_fragments', 'c_structural', 'c_field', 'c_packet', 'c_descriptor', 'c_purity']
 
 _COMMON_TRUST = [
     'builtin/library contracts of DESIGN.md 2.5-2.6 (assumed; cross-checked against CPython by pyvc/crosscheck.py, bounded)',
@@ -13,7 +13,32 @@ _DATA_FUNCS = ['field:Data._unpack_fixed_size', 'field:Data._unpack_variable_siz
                'field:Data._unpack_variable_size_callable', 'field:Data._unpack_with_string_marker',
                'field:Data._unpack_with_regexp_marker', 'field:Data.pack']
 
+_FRAME_FUNCS = ['field:Int._unpack_fixed_and_primitive_size', 'field:Int._unpack_fixed_size',
+                'field:Int._pack_fixed_and_primitive_size', 'field:Int._pack_fixed_size', 'field:Int.init',
+                'field:Data._unpack_fixed_size', 'field:Data._unpack_variable_size_field',
+                'field:Data._unpack_variable_size_callable', 'field:Data._unpack_with_string_marker',
+                'C13#field:Data._unpack_with_regexp_marker', 'field:Data.pack', 'field:Data.init',
+                'field:Bits.unpack', 'field:Bits.pack', 'field:Field.init',
+                'field:Ref._unpack_referencing_a_packet', 'field:Ref._pack_referencing_a_packet',
+                'structural_fields:Sequence.unpack', 'structural_fields:Sequence.pack', 'structural_fields:Sequence.init',
+                'structural_fields:Optional.unpack', 'structural_fields:Optional.pack', 'structural_fields:Optional.init',
+                'structural_fields:Move.unpack', 'structural_fields:Move.pack',
+                'packet:Packet.__init__', 'packet:Packet.unpack_impl', 'C13#packet:Packet.pack_impl',
+                'packet:Packet.unpack', 'packet:Packet.pack', 'packet:Packet.__eq__', 'packet:Packet.__repr__',
+                'descriptor:Auto.__get__', 'descriptor:Auto.sync_before_pack']
+
 PROPERTIES = {
+    'C13': dict(
+        level='proof',
+        functions=_FRAME_FUNCS,
+        trusted_base=_COMMON_TRUST + ['role contracts: user callables and Ref selectors are pure and return fresh objects',
+                                      'copy.deepcopy / pickle round trip return fresh object graphs'],
+        assumptions=['thread schedules are NOT explored: non-interference of operations on distinct packets follows from the proved frames '
+                     '(disjoint write footprints, shared field objects only read) - the footprint argument of DESIGN.md 4.C13',
+                     'Ref with run-time selectors (F3: writes into the object returned by the selector) and deferred-expression callables are outside the functions under contract here (C09 covers exec_compiled_expr)',
+                     'WFClass: slot sets of distinct fields are disjoint'],
+        explanation='frames and freshness: every frame obligation of every pack/unpack/init function under contract',
+    ),
     'C04': dict(
         level='proof',
         functions=['field:Int._unpack_fixed_and_primitive_size', 'field:Int._unpack_fixed_size',
@@ -98,7 +123,10 @@ PROPERTIES = {
     ),
     'C10': dict(
         level='proof',
-        functions=['structural_fields:Move.unpack', 'structural_fields:Move.pack'],
+        functions=['structural_fields:Move.unpack', 'structural_fields:Move.pack',
+                   # per-element alignment of repeated fields (call assertions) and the fill of skipped bytes
+                   'structural_fields:Sequence.unpack', 'structural_fields:Sequence.pack',
+                   'fragments:Fragments.insert', 'fragments:Fragments.tobytes'],
         lemmas=['C10.move_target_unique'],
         trusted_base=_COMMON_TRUST,
         assumptions=['move targets are integers; alignment values are > 0 (precondition, outside the statement otherwise)',
@@ -114,6 +142,12 @@ PROPERTIES = {
 }
 
 MANIFEST_TEXT = {
+    'C13': dict(
+        text='Proof of the frame (modifies) clause and the freshness clauses of every pack / unpack / init function under contract: each writes only slots of its own packet argument, freshly allocated objects '
+             'and (pack) the fragments argument; shared field objects are not written after compilation; objects stored into slots are fresh or immutable or supplied by the caller; pack leaves every field value unchanged. '
+             'Independence across packets and threads then follows from disjoint footprints (argument, not exploration).',
+        note='Schedules are not executed. Known findings: K13a (regex-delimited Data writes the shared field object while parsing), K13c (pack rewrites the hidden slot of a described field, observable through ==). '
+             'Not under contract: Ref with run-time selectors (F3), Prototype.clone, Bits._compile/init.'),
     'C04': dict(
         text='Proof for every value-bearing leaf kind (Int both code paths, Data all five modes, Bits runs of any width) and any input: a normal exit implies the value was decoded '
              'from exactly the declared number of bytes, all inside the input (delimiters inside input and search window); a short slice, negative size or missing delimiter has no normal exit; '
